@@ -23,7 +23,8 @@ for p in props:
     for fn in sorted(os.listdir(os.path.join(HERE, "props"))):
         if fn.lower().startswith(pid.lower() + "_") and fn.endswith(".py"):
             mod = importlib.import_module("props." + fn[:-3])
-    if mod is None or not hasattr(mod, "CLAIM"):
+    ready = open(os.path.join(HERE, "tools", "ready.txt")).read().split()
+    if mod is None or not hasattr(mod, "CLAIM") or pid not in ready:
         na.append(dict(property_id=pid, reason=NOT_CLAIMED.get(pid, "harness not built yet (bounded exhaustive exploration is applicable, see DESIGN.md §4 " + pid + ")")))
         continue
     c = mod.CLAIM
